@@ -228,8 +228,11 @@ def go_fields(src, ty):
             res[mm.group(2)] = (mm.group(1), int(mm.group(3)), mm.group(4) == "true")
     return res
 
+INTVEC = {"vector<short>": 2, "vector<int>": 4, "vector<long>": 8}
+
 def schema_contract(pkg, ty, mem, fields):
-    """WriteTo contract of a struct whose members are all scalars/strings: bytes == schema encoding"""
+    """WriteTo contract of a struct whose members are scalars, strings and vectors of signed integers:
+    bytes == schema encoding"""
     steps, reqs = [], ["st != nil", "validB(buf)"]
     full = True
     last = -1
@@ -239,30 +242,38 @@ def schema_contract(pkg, ty, mem, fields):
         if tag <= last:
             raise SystemExit("%s.%s: tags not ascending" % (pkg, ty))
         last = tag
+        f = "st." + fields[name][0]
+        if ity.replace(" ", "") in INTVEC:
+            # vector of integers: written when required or non-empty; three codec calls (head, count, element in the
+            # loop) and 4 conditional branches (+1 for the emptiness test of an optional member)
+            w = INTVEC[ity.replace(" ", "")]
+            reqs.append("len(%s) < 2147483648" % f)
+            steps.append((None if req else "len(%s) > 0" % f, "encVecInts(%d, ints(%s), %d)" % (tag, f, w), 3, 4,
+                          "head(LIST, %d) ++ encInt32(0, len(%s)) ++ encIntsW(ints(%s), rangeindex + 1, %d)" % (tag, f, f, w)))
+            continue
         if ity not in SCALAR:
             full = False
             break
-        f = "st." + fields[name][0]
         enc = "%s(%d, %s)" % (SCALAR[ity], tag, f)
         if ity == "string":
             reqs.append("len(%s) < 4294967296" % f)
         if req or ity == "enum":
             # an optional member of enum type is always written by the generator; that is a conformant encoding
             # (a present member equal to its default decodes to the same value), so the schema accepts it
-            steps.append((None, enc))
+            steps.append((None, enc, 1, 1, None))
         else:
             if dflt is None:
                 d = '""' if ity == "string" else ("false" if ity == "bool" else "0")
             else:
                 d = dflt
-            steps.append(("%s != %s" % (f, d), enc))
+            steps.append(("%s != %s" % (f, d), enc, 1, 1, None))
     if not steps:
         return []
     # the expected bytes, built member by member in the order of the schema: e<k> = bytes after member k
     o = ["//@ func (*%s).WriteTo" % ty,
          "//@   requires " + " && ".join(reqs),
          "//@   let e0 = buf.buf.bytes"]
-    for k, (cond, enc) in enumerate(steps):
+    for k, (cond, enc, _, _, _) in enumerate(steps):
         if cond is None:
             o.append("//@   let e%d = e%d ++ %s" % (k + 1, k, enc))
         else:
@@ -274,24 +285,32 @@ def schema_contract(pkg, ty, mem, fields):
     if full:
         o.append("//@   ensures [C03] err == nil && buf.buf.bytes == pre")
     else:
-        return []  # structs with container members: not derived (requestf's two packets are written by hand)
-    if sum(1 for c, _ in steps if c is not None) > 3:
+        return []  # structs with map/struct/string-vector members: not derived (requestf's two packets are written by hand)
+    # element loops of the vector members (range loops, in member order): everything before the member, the head, the
+    # count and the elements written so far
+    nl = 0
+    for k, (cond, enc, _, _, inv) in enumerate(steps):
+        if inv:
+            o.append("//@   loop %d invariant [C03] err == nil && buf.buf.bytes == e%d ++ %s" % (nl, k, inv))
+            nl += 1
+    if sum(1 for st_ in steps if st_[0] is not None) > 3 or nl > 0:
         # many optional members: cut the 2^n paths with the intermediate fact in front of each member's write
-        # (a required member's write is call k of the method; an optional member's test is conditional branch
-        # number sum(1 for a required, 2 for an optional member in front of it): test, then the error check)
-        nif = 0
-        for k, (cond, _) in enumerate(steps):
+        # (a required member's first write is codec call number <calls so far>; an optional member's test is conditional
+        # branch number <branches so far>: each codec call is followed by its error check, a loop has its own test)
+        ncall, nif = 0, 0
+        for k, (cond, _, calls, ifs, _) in enumerate(steps):
             if k > 0:
                 if cond is None:
-                    o.append("//@   site Buffer).Write#%d assert [C03] buf.buf.bytes == e%d" % (k, k))
+                    o.append("//@   site Buffer).Write#%d assert [C03] buf.buf.bytes == e%d" % (ncall, k))
                 else:
                     o.append("//@   site if#%d assert [C03] buf.buf.bytes == e%d" % (nif, k))
-            nif += 1 if cond is None else 2
+            ncall += calls
+            nif += ifs + (0 if cond is None else 1)
     o += ["//@   safety [C03]", "//",
           "//@ func (*%s).WriteBlock" % ty,
           "//@   requires " + " && ".join(reqs),
           "//@   let e0 = buf.buf.bytes ++ head(StructBegin, tag)"]
-    for k, (cond, enc) in enumerate(steps):
+    for k, (cond, enc, _, _, _) in enumerate(steps):
         if cond is None:
             o.append("//@   let e%d = e%d ++ %s" % (k + 1, k, enc))
         else:
